@@ -803,8 +803,10 @@ class MixedEdgeGraph:
                 raise RuntimeError("Not supported for updating with a graph yet.")
 
             if nodes is not None:
-                self.add_nodes_from(nodes)
+                # edges first: if they are rejected (e.g. by the edge checks of PAG / CPDAG)
+                # the call raises without leaving the new nodes behind
                 self.add_edges_from(edges, edge_type=edge_type)
+                self.add_nodes_from(nodes)
             else:
                 # check if edges is a Graph object
                 try:
@@ -814,8 +816,8 @@ class MixedEdgeGraph:
                     # edge not Graph-like
                     self.add_edges_from(edges, edge_type=edge_type)
                 else:  # edges is Graph-like
-                    self.add_nodes_from(graph_nodes.data())
                     self.add_edges_from(graph_edges[edge_type].data(), edge_type=edge_type)
+                    self.add_nodes_from(graph_nodes.data())
                     self.graph.update(edges.graph)
         elif nodes is not None:
             # TODO: if nodes is supported internally for MixeedEdgeGraph, we don't need this check
